@@ -122,3 +122,23 @@ Print Assumptions expand_rejects_dangling_and_chained.
 Example compact_demo : compact_elements [1; 2; 3; 6; 7; 8; 10; 3]%Z = inr (Some "H-Li,C-O,Ne") /\
                        expand_elements (SelStr "H-Li,C-O,Ne") = inr [1; 2; 3; 6; 7; 8; 10]%Z.
 Proof. vm_compute. split; reflexivity. Qed.
+
+(* ---- contraction_string: the per-angular-momentum map it prints from holds exactly the sums of primitives and
+   contractions over the shells containing that angular momentum (a combined shell counts one contraction per
+   angular momentum), and has no entry for an absent one; any number and shape of shells (Proofs/ContractionCount.v) ---- *)
+From BSE Require Proofs.ContractionCount.
+Theorem contraction_counts :
+  forall am shs,
+    ContractionCount.clookup am (cmap shs) =
+    if ContractionCount.occurs am shs
+    then Some (ContractionCount.prims_of am shs, ContractionCount.conts_of am shs) else None.
+Proof. exact ContractionCount.cmap_counts_lemma. Qed.
+Print Assumptions contraction_counts.
+
+(* 10s4p in 3s2p with an sp shell: shells are (angular momenta, primitives, coefficient rows) *)
+Example contraction_demo :
+  let shs : list cshell := [([0%Z], 6%nat, 2%nat); ([0%Z; 1%Z], 3%nat, 2%nat); ([0%Z], 1%nat, 1%nat); ([1%Z], 1%nat, 1%nat)] in
+  ContractionCount.clookup 0 (cmap shs) = Some (10, 4)%nat /\ ContractionCount.clookup 1 (cmap shs) = Some (4, 2)%nat /\
+  ContractionCount.clookup 2 (cmap shs) = None /\
+  contraction_string (Some shs) false = inr "(10s,4p) -> [4s,2p]".
+Proof. vm_compute. repeat split; reflexivity. Qed.
